@@ -7,7 +7,7 @@ specs/Trace_Params.tla: TLC validates what the real builders did
 """
 import vlib
 
-ALGS = ["kmeans", "dbscan", "optics", "gmm", "enet", "mtenet", "logistic", "mlogistic", "tweedie", "svc", "svr", "tree",
+ALGS = ["kmeans", "kmeans32", "dbscan", "dbscan32", "optics", "gmm", "enet", "mtenet", "logistic", "mlogistic", "tweedie", "svc", "svr", "tree", "tree32",
         "gnb", "mnb", "ftrl", "plsreg", "plscan", "plscca", "tsne", "ica", "diffmap", "rpgauss", "rpsparse", "platt",
         "hier", "countvec"]
 ALGSET = vlib.tla_set(ALGS)
@@ -68,7 +68,7 @@ def run(ctx):
     vlib.validate_with_findings(ctx, "Trace_Params", traces, constants=TRACE_CONST, chunk=5000)
     ctx.extra["cases_per_builder"] = {a: sum(1 for c in cases if c["kind"] == a) for a in ALGS}
     ctx.rule = ("cases = programs (constructor + setter calls) enumerated by TLC (Gen_Params) over the boundary grid of every "
-                "documented bound of every parameter of 26 builders: all single and pairwise deviations from the default "
+                "documented bound of every parameter of 26 builders (+ 3 of them also instantiated with f32): all single and pairwise deviations from the default "
                 "builder, both orders of setters that write a common field, the same setter twice [thorough: + triples, "
                 "+ the full grid of every builder with <= 30000 grid points, + 4000 seeded random programs of 2..6 calls in any order]; non-trivial = program with >= 2 calls; "
                 "distinct by program")
